@@ -148,6 +148,9 @@ func dumpNode(sb *strings.Builder, n ast.Node) {
 		sb.WriteByte(')')
 	case *ast.Comment:
 		sb.WriteString("(cmt)")
+	case *object.Register:
+		// a rewritten body (eval.setupRegister): the register standing for an identifier
+		sb.WriteString("(reg " + hx(v.Literal()) + " " + strconv.Itoa(v.Idx) + ")")
 	case *ast.MacroLiteral:
 		sb.WriteString("(macro (params")
 		for _, p := range v.Parameters {
